@@ -258,11 +258,14 @@ Definition reg_load (r : region) (sz off : N) : res (list N) :=
      let slice = self.offset(addr)?;  (size.checked_sub(addr) else OutOfBounds)
      let mut slice = slice.subslice(0, slice.len().min(count)).unwrap();
      retry_eintr!(src.read_volatile(&mut slice))
-   with src: &[u8] (io.rs:268): total = min(slice.len, src.len); copy; src advances; Ok(total) *)
-Definition reg_read_volatile_from (r : region) (off : N) (src : list N) (count : N)
+   The source is an in-memory byte stream that hands out at most `chunk` bytes per read_volatile
+   call: src: &[u8] (io.rs:268: total = min(slice.len, src.len); copy; src advances; Ok(total)) is
+   chunk = "unbounded" (any chunk >= the request); the harness' ChunkedSrc is the same with a
+   finite chunk >= 1 (short reads, as files and sockets produce them). *)
+Definition reg_read_volatile_from (r : region) (off : N) (chunk : N) (src : list N) (count : N)
   : region * list N * res N :=
   if rlen r <? off then (r, src, inr EInvalidBackendAddress)
-  else let n := N.min (N.min (rlen r - off) count) (lenN src) in
+  else let n := N.min (N.min (N.min (rlen r - off) count) chunk) (lenN src) in
        (set_bytes r (write_at (rbytes r) (N.to_nat off) (firstn (N.to_nat n) src)),
         skipn (N.to_nat n) src, inl n).
 (* mmap/mod.rs:283 write_all_volatile_to -> volatile_memory.rs:826: dst.write_all_volatile(&self.get_slice(addr, count)?)
@@ -353,19 +356,19 @@ Definition gm_load (M : mem) (sz addr : N) : outcome (res (list N)) :=
 
 (* :675 fn read_volatile_from(&self, addr, src, count) {
      self.try_access(count, addr, |_, len, caddr, region| region.read_volatile_from(caddr, src, len)) }
-   with src: &[u8]; state = (memory, rest of the source).  A short source makes the callback
-   return less than asked once and 0 afterwards: fuel = regions + 2 *)
-Definition gm_read_volatile_from (M : mem) (addr : N) (src : list N) (count : N)
+   state = (memory, rest of the source).  A source may answer short (less than asked), every
+   such answer consumes at least one of its bytes: fuel = regions + source length + 2 *)
+Definition gm_read_volatile_from (M : mem) (addr : N) (chunk : N) (src : list N) (count : N)
   : outcome ((mem * list N) * res N) :=
   try_access find m (shape M) count
     (fun ms _ len caddr i =>
-       let rr := reg_read_volatile_from (nth i (fst ms) dummy) caddr (snd ms) len in
+       let rr := reg_read_volatile_from (nth i (fst ms) dummy) caddr chunk (snd ms) len in
        Val ((upd_nth (fst ms) i (fst (fst rr)), snd (fst rr)), snd rr))
-    (S (S (length M))) (M, src) addr 0.
+    (S (S (length M + length src))) (M, src) addr 0.
 (* :683 fn read_exact_volatile_from *)
-Definition gm_read_exact_volatile_from (M : mem) (addr : N) (src : list N) (count : N)
+Definition gm_read_exact_volatile_from (M : mem) (addr : N) (chunk : N) (src : list N) (count : N)
   : outcome ((mem * list N) * res unit) :=
-  let* r := gm_read_volatile_from M addr src count in
+  let* r := gm_read_volatile_from M addr chunk src count in
   Val (fst r, match snd r with
               | inr e => inr e
               | inl n => if n =? count then inl tt else inr (EPartialBuffer count n)
